@@ -407,6 +407,7 @@ func runC19(c *Ctx) {
 		}
 	}
 	checkRoundTripValidated(r, p, pkg, info)
+	checkDiv64Fits(r, p, pkg, info)
 	r.Count(nDiv)
 	if nSigned < 2 {
 		r.Fail("signed-div/guarded", pkg, "-", fmt.Sprintf("expected at least 2 divisions over signed-capable types (SafeDiv, SafeMul), found %d (vacuous)", nSigned))
@@ -610,5 +611,45 @@ func checkRoundTripValidated(r *Reporter, p *Prog, pkg string, info *types.Info)
 	// to use another algorithm - their arithmetic is not decided here either way)
 	if n < 2 {
 		r.Fail("wrap/round-trip-validated", pkg, "-", fmt.Sprintf("expected the raw products/shifts of the generic SafeMul and SafeLeftShift, found %d (vacuous)", n))
+	}
+}
+
+// checkDiv64Fits: bits.Div64(hi, lo, y) panics unless y > hi (the quotient must fit 64 bits, and y
+// must not be zero). Every call is reachable only through an edge on which hi < y is known - the
+// strict comparison: with hi == y the quotient is 2^64 or more and the call panics instead of the
+// function reporting an overflow. Operands are compared resolved (through temporaries, helper
+// parameters and the fields of a product record).
+func checkDiv64Fits(r *Reporter, p *Prog, pkg string, info *types.Info) {
+	n := 0
+	for _, fd := range p.AllFuncDecls(pkg) {
+		if fd.Body == nil || strings.HasSuffix(p.Fset.Position(fd.Pos()).Filename, "_test.go") {
+			continue
+		}
+		// judged where the call is reachable from: the function itself, or - for an unexported helper
+		// spliced into every caller - its callers
+		if !fd.Name.IsExported() && splicedEverywhere(p, pkg, fd) {
+			continue
+		}
+		fkey := funcKey(pkg, fd)
+		f := newFuncCFG(p, info, fd.Body, fkey+"/div64")
+		for _, c := range f.Calls(func(c *ast.CallExpr) bool { return qualifiedCallee(info, c) == "math/bits.Div64" && len(c.Args) == 3 }) {
+			n++
+			pt, _ := f.PointOf(c)
+			hi, y := f.KeyAt(c.Args[0], pt), f.KeyAt(c.Args[2], pt)
+			key := "bits.Div64 in " + fkey
+			fits := f.RelEdgesAt(func(rel Rel) bool { return rel.Op == "<" && rel.L == hi && rel.R == y })
+			if len(fits) == 0 {
+				r.Fail("div64/quotient-fits", key, p.posStr(c.Pos()), fmt.Sprintf("no branch establishes %s < %s before the 128-by-64 division: for a divisor not greater than the upper half bits.Div64 panics instead of the overflow being reported", hi, y))
+				continue
+			}
+			if w, only := f.OnlyThroughEdges(pt, fits); !only {
+				r.Fail("div64/quotient-fits", key, p.posStr(c.Pos()), fmt.Sprintf("the 128-by-64 division is reachable without %s < %s having been established (the comparison must be strict): bits.Div64 panics when the divisor equals the upper half", hi, y), w...)
+			} else {
+				r.Pass("div64/quotient-fits", key, p.posStr(c.Pos()), fmt.Sprintf("dominated by the edge on which %s < %s", hi, y))
+			}
+		}
+	}
+	if n == 0 {
+		r.Advise("div64/quotient-fits: no bits.Div64 call in " + pkg)
 	}
 }
